@@ -749,6 +749,11 @@ pub fn rule_stream(rng: &mut Rng, thorough: bool) -> Vec<TextCase> {
     for (i, c) in const_shapes().iter().enumerate() {
         metas.push(format!("@c{}: {};", i % 3, c));
     }
+    // metadata keys that are reserved words of the crate without being lexer keywords, near-misses of keywords, and words a
+    // later release might reserve: all of them are identifiers today, so all of them are keys
+    for w in ["starts", "ends", "key", "val", "any", "all", "not", "len", "abs", "min", "max", "upper", "lower", "date", "time", "to", "is", "Name", "NAME", "names", "description_", "Description", "i18n", "f", "d", "i", "t1h", "t5m30s", "i1_0", "finf", "version", "priority", "enabled", "facts", "input"] {
+        metas.push(format!("@{}: i1;", w));
+    }
     let exprs = ["i1", "a + b", "if a then b else c", "\"x\n//inside\n\"", "i1 // trailing", "[i1,\n i2]", "f(x)", "a.b.0", "i1 +", "34", "", "\"//not a comment\"", "a / b", "a //c\r+ b"];
     let eols = ["\n", "\r\n", "\r"];
     let mut out = vec![];
